@@ -31,6 +31,9 @@ class ToolError(Exception):
     pass
 
 
+LIFTABLE = {"eval_fn", "partial_fn", "subst_fn", "arith", "fn_info", "ctor", "eval_bound", "content_factor"}
+
+
 def log(*a):
     print(*a, flush=True)
 
@@ -304,6 +307,20 @@ def check(prop, tier, seed):
         os.remove(p)
     for f in plan.get("static", []):
         inputs.extend(f(wd, quick, seed))
+    if plan.get("lift_every"):
+        # relabelled copies of function-level events: same vector, variable ids mapped (by the harness, order-preserving)
+        # into the 64-bit range; the judge sees the small ids and must reach the same verdict ("any IDs")
+        k, extra_in = 0, []
+        for v in inputs:
+            if v.get("ev") in LIFTABLE:
+                k += 1
+                if k % plan["lift_every"] == 0:
+                    w = json.loads(json.dumps(v))
+                    w["in"]["lift"] = "ABCD"[(k // plan["lift_every"]) % 4]
+                    w["case"] = str(w.get("case", "")) + "-lift" + w["in"]["lift"]
+                    extra_in.append(w)
+        inputs.extend(extra_in)
+        gen_stats.append({"name": "lifted_copies", "vectors": len(extra_in)})
     inp_path = os.path.join(wd, "inputs.ndjson")
     with open(inp_path, "w") as f:
         for v in inputs:
